@@ -611,8 +611,9 @@ def run(chk):
                 'each with every composition of C into P targets (8 sampled per matrix beyond the exhaustive sizes); '
                 'non-trivial = the targets differ from the arg-max counts (something must move); distinct = '
                 'distinct (targets, matrix). end to end: nets of 2-4 convs (1x1/3x3, 3..64 channels) + optional '
-                'linear head (a quarter of the layers with 3..55 channels that are no power of two), per-channel weights, 8-bit activations, NE16 cost, precision tuples (2,4,8), '
-                '(8,4,2), (0,2,4,8) [thorough: also (4,8,2), (2,8), (8,4,2,0), (4,8)], integer-valued alpha '
+                'linear head (a quarter of the layers with 3..55 channels that are no power of two), per-channel weights, 8-bit activations, NE16 cost, every order of the precision tuples (2,4,8) and (0,2,4,8) (30 tuples, incl. the cyclic '
+                'orders whose sorting permutation is not its own inverse) [thorough: also 2- and 3-precision tuples '
+                'with 0 in several orders], integer-valued alpha '
                 'matrices (random permutations / trained-looking); non-trivial = the search changed the '
                 'counts of some layer' % (6 if chk.quick else 8))
     chk.trusted.append('torch.argmax/argsort/isin and tensor index assignment as modelled by list functions '
